@@ -239,6 +239,8 @@ def unit_corpus(a):
     for n, t in noisy.corpus_texts():
         for v in range(a["variants"]):
             cases.append({"sub": "layout", "text": t, "label": "corpus:" + n, "choices": [(v * 37 + i * 11 + a["seed"]) % 256 for i in range(24)]})
+    for n, t in noisy.length_boundary_documents(False):
+        cases.append({"sub": "layout", "text": t, "label": "length-boundary:" + n, "choices": [(len(t) * 7 + i * 13 + a["seed"]) % 256 for i in range(24)]})
     from .c17 import large_sources
     cases.append({"sub": "layout", "text": large_sources()[0], "label": "large-non-ascii-file", "choices": [1] * 24})
     cases.append({"sub": "layout", "text": "\ufeffFeature: bom\n Scenario: s\n  Given x\n", "label": "bom", "choices": [2] * 24})
